@@ -119,7 +119,7 @@ fn token_strategy(typeable: bool) -> impl Strategy<Value = String> {
     let table: Vec<char> = vec!['a', 'b', ' ', '"', '\\', '-', 'é', 'Ж', '₿', '𝄞', 'x', '\''];
     let ch = prop_oneof![
         8 => any::<u16>().prop_map(move |s| pick(&table, s)),
-        1 => any::<char>().prop_filter("no NUL", move |c| *c != '\0' && (!typeable || (*c >= ' ' && *c != '\x7f'))),
+        1 => any::<char>().prop_map(move |c| if c == '\0' || (typeable && (c < ' ' || c == '\x7f')) { 'Ω' } else { c }),
     ];
     proptest::collection::vec(ch, 0..8).prop_map(|v| v.into_iter().collect())
 }
@@ -220,7 +220,7 @@ fn run_shard(ctx: &ShardCtx) {
     let table: Vec<char> = vec!['a', 'b', ' ', ' ', '"', '"', '\\', '-', 'é', 'Ж', '₿', '𝄞'];
     let ch = prop_oneof![
         12 => any::<u16>().prop_map(move |s| pick(&table, s)),
-        1 => any::<char>().prop_filter("no NUL", |c| *c != '\0'),
+        1 => any::<char>().prop_map(|c| if c == '\0' { 'Ω' } else { c }),
     ];
     let strat = proptest::collection::vec(ch, 0..200).prop_map(|v| v.into_iter().collect::<String>());
     ctx.run_prop("tokens-random", ctx.tier.pick(1_000_000, 10_000_000), strat, |l| json!({"line": l}), |line| {
